@@ -29,6 +29,7 @@ func init() {
 				out = append(out, Shard{Kind: "edge", Arg: fmt.Sprint(by), Tier: tier, Seed: seed})
 			}
 			out = append(out, Shard{Kind: "residues", Arg: fmt.Sprint(now), Tier: tier, Seed: seed})
+			out = append(out, Shard{Kind: "anomaly", Tier: tier, Seed: seed})
 			var early [][2]int
 			for y := 2; y <= 1899; y++ {
 				// quick: every 30th year, plus the years whose lunar New Year lies outside the civil year (lunar year 16
@@ -282,6 +283,32 @@ func runC10(w *W) {
 				w.Sample(map[string]interface{}{"jie": tm.Key, "instant": tm.S.ToYmdHms(), "moments": len(ts)})
 			}
 		})
+	case "anomaly":
+		// the days around the civil calendar's irregular places, with the year itself (and year 1) as base year: the end of
+		// February in century years (leap under the Julian rule up to 1500, common under the Gregorian rule from 1700) and
+		// in the 400-year leap years, and the weeks around the 1582 switch
+		for _, y := range []int{100, 200, 300, 400, 500, 600, 700, 800, 900, 1000, 1100, 1200, 1300, 1400, 1500, 1582, 1600, 1700, 1800, 1900, 2000} {
+			from, to := r1JDN(y, 2, 20), r1JDN(y, 3, 12)
+			if y == 1582 {
+				from, to = r1JDN(1582, 9, 25), r1JDN(1582, 11, 12)
+			}
+			for j := from; j <= to; j++ {
+				dy, dm, dd := r1FromJDN(j)
+				d := &Day{J: j, Y: dy, M: dm, D: dd, Ymd: fmt.Sprintf("%04d-%02d-%02d", dy, dm, dd)}
+				d.S = calendar.NewSolarFromYmd(dy, dm, dd)
+				terms := termsOf(d.L())
+				w.R.States++
+				for _, t := range []hms{{12, 30, 0}, {23, 30, 0}, {0, 30, 0}} {
+					for sect := 1; sect <= 2; sect++ {
+						for _, by := range []int{y, 1} {
+							if y < 1900 || by == y {
+								c10Check(w, d, t, sect, by, terms)
+							}
+						}
+					}
+				}
+			}
+		}
 	case "residues":
 		// every residue of (current year - base year) modulo 60 and 120 years back: moments of the current year (before
 		// and after Lichun), of the year before and of the base year itself, with base years now-k, k = 0..119
